@@ -12,6 +12,7 @@ def run(ctx):
         p = D.params(rng)
         if i % 7 == 0:
             p["divergence_metric"], p["ev_threshold"] = "intersection", 0.99     # several components, histogram metric
+        p["neighbour"] = i % 7 == 0 or i % 5 == 1
         if i % 3 != 0:
             C.choose(rng, p, ("array2d", "array1d", "list2d", "list1d", "frame", "series", "reused1d", "reused2d", "tuple"))
         W = p["window_size"]
